@@ -23,6 +23,8 @@ func propC01() Property {
 			{ID: "C01-R2", Desc: "advance exactly once after a gated acceptance, never twice", Min: 4, Run: c01R2},
 			{ID: "C01-R3", Desc: "sequence comparison polarity and operands", Min: 2, Run: c01R3},
 			{ID: "C01-R4", Desc: "forward-only set of the expected number", Min: 1, Run: c01R4},
+			{ID: "C01-R11", Desc: "every inbound message is parsed into a message of its own (= C04-R12)", Min: 2, Run: c04R12},
+			{ID: "C01-R10", Desc: "stashed messages are not carried into a new epoch (= C04-R11)", Min: 3, Run: c04R11},
 			{ID: "C01-R5", Desc: "stash drained at the expected number", Min: 3, Run: c04R5},
 			{ID: "C01-R6", Desc: "session handlers read each field from the section the parser files it in (= C11-R7)", Min: 20, Run: sectionAccessRule},
 			{ID: "C01-R7", Desc: "the expected number goes back to 1 only through a configured or negotiated reset (= C07-R1)", Min: 3, Run: c07R1},
